@@ -401,6 +401,82 @@ pub fn plane_z(seed: u64, p: u64) -> Plane {
 }
 
 // ---------------------------------------------------------------------------
+// [F] stacks: several blended cels per frame, flat colours (runs of identical
+// backdrop/source pairs across consecutive cels), non-overlapping shapes
+// ---------------------------------------------------------------------------
+
+pub struct Stack {
+    pub label: String,
+    pub w: u16,
+    pub h: u16,
+    /// per layer: (mode, layer opacity, cel opacity, pixels)
+    pub layers: Vec<(u16, u8, u8, Vec<u32>)>,
+}
+
+pub fn stack_f(seed: u64, p: u64) -> Stack {
+    let mut rng = Rng::derive(seed, "F", p);
+    let (w, h) = (48u16, 16u16);
+    let n = (w as usize) * (h as usize);
+    let k = 3 + rng.below(3) as usize;
+    // a tiny colour set shared by all layers
+    let colours: Vec<u32> = (0..3).map(|_| rng.u32() | if rng.chance(2, 3) { 0xff00_0000 } else { 0x0100_0000 }).collect();
+    let mut layers = Vec::new();
+    // layer 0: flat backdrop (one colour, sometimes with a transparent half)
+    let bc = colours[0];
+    let half = rng.chance(1, 3);
+    layers.push((0u16, 255u8, 255u8, (0..n).map(|i| if half && i % (w as usize) >= w as usize / 2 { 0 } else { bc }).collect::<Vec<u32>>()));
+    for j in 1..=k {
+        let mode = rng.range(0, 18) as u16;
+        let (lo, co) = (rng.opacity(), rng.opacity());
+        // a flat rectangle of one colour, placed so that shapes of different layers mostly do not overlap
+        let colour = colours[1 + (j % 2)];
+        let x0 = ((j - 1) * (w as usize) / k) as usize;
+        let x1 = (j * (w as usize) / k) as usize;
+        let px: Vec<u32> = (0..n).map(|i| { let x = i % w as usize; if x >= x0 && x < x1 { colour } else { 0 } }).collect();
+        layers.push((mode, lo, co, px));
+    }
+    Stack { label: format!("F(p={},layers={})", p, k + 1), w, h, layers }
+}
+
+pub fn check_stack(stack: &Stack) -> Vec<Violation> {
+    let mut sp = Sprite::blank(stack.w, stack.h, Fmt::Rgba, 1);
+    for (j, (mode, lo, co, px)) in stack.layers.iter().enumerate() {
+        let mut l = LayerM::image(MODE_NAMES[*mode as usize]);
+        l.blend = *mode;
+        l.opacity = *lo;
+        sp.layers.push(l);
+        sp.cels.insert((0, j as u16), CelM { x: 0, y: 0, opacity: *co, content: CelContentM::Image { w: stack.w, h: stack.h, pixels: px_bytes(px) }, ud: None });
+    }
+    let mut v = Variation::none();
+    v.default_storage = Storage::Raw;
+    let mut rng = Rng::new(0);
+    let (bytes, _) = encode(&compile(&sp, &mut rng, &v));
+    let ase = match load(&bytes) {
+        Ok(a) => a,
+        Err(e) => return vec![Violation::new(format!("load-failed|blend-stack|{}", err_sig(&e)), format!("stack sprite failed to load: {}", e))],
+    };
+    let img = match guarded(|| ase.frame(0).image()) {
+        Ok(i) => i,
+        Err(p) => return vec![Violation::new(format!("render-panic|stack|{}", p.signature()), format!("rendering stack {} panicked: {}", stack.label, p.message))],
+    };
+    let n = stack.w as usize * stack.h as usize;
+    let mut canvas = vec![0u32; n];
+    let mut out = vec![0u32; n];
+    for (mode, lo, co, px) in &stack.layers {
+        blendref::blend_many(*mode as u32, &canvas, px, blendref::mul_un8(*lo, *co), &mut out);
+        std::mem::swap(&mut canvas, &mut out);
+    }
+    let obs: Vec<u32> = img.as_raw().chunks_exact(4).map(|c| pack([c[0], c[1], c[2], c[3]])).collect();
+    if let Some(i) = (0..n).find(|i| !loose_eq(obs[*i], canvas[*i])) {
+        let desc: Vec<String> = stack.layers.iter().map(|(m, lo, co, px)| format!("{}(lo={},co={},px={:?})", MODE_NAMES[*m as usize], lo, co, unpack(px[i]))).collect();
+        return vec![Violation::new("blend-mismatch|stack|F-stacks", format!("pixel {} of a {}-layer stack: asefile {:?}, Aseprite {:?}; layers bottom-up: {}", i, stack.layers.len(), unpack(obs[i]), unpack(canvas[i]), desc.join(" ")))
+            .with_input(&bytes)
+            .with_extra(json!({"stack": stack.label, "pixel": i, "observed": unpack(obs[i]), "expected": unpack(canvas[i])}))];
+    }
+    vec![]
+}
+
+// ---------------------------------------------------------------------------
 // schedule of planes per tier
 // ---------------------------------------------------------------------------
 
@@ -412,6 +488,7 @@ pub enum Job {
     C2 { p: u64 },
     D { p: u64 },
     E { p: u64 },
+    F { p: u64 },
     Z { p: u64 },
 }
 
@@ -463,6 +540,9 @@ pub fn schedule(tier: Tier, seed: u64) -> Vec<Job> {
     for p in 0..tier.pick(64, 4000) {
         jobs.push(Job::E { p });
     }
+    for p in 0..tier.pick(4000, 200_000) {
+        jobs.push(Job::F { p });
+    }
     for p in 0..tier.pick(24, 240) {
         jobs.push(Job::Z { p });
     }
@@ -477,6 +557,7 @@ pub fn job_plane(job: &Job, seed: u64) -> (Plane, &'static [u16]) {
         Job::C2 { p } => (plane_c2(seed, *p), &HSL_PLUS_NORMAL),
         Job::D { p } => (plane_d(seed, *p), &ALL_MODES),
         Job::E { p } => (plane_e(seed, *p), &HSL_PLUS_NORMAL),
+        Job::F { .. } => panic!("stack jobs are handled by check_stack"),
         Job::Z { p } => (plane_z(seed, *p), &ALL_MODES),
     }
 }
